@@ -313,3 +313,10 @@ Example sorted_onsets_unsorted_amplitudes_differs :
   qlist_eqb (main_regressor g ft5 [1] [(6, 0, 3); (2, 0, 1)]) (main_regressor g ft5 [1] [(2, 0, 3); (6, 0, 1)]) = false /\
   qlist_eqb (main_regressor g ft5 [1] [(6, 0, 3); (2, 0, 1)]) (main_regressor g ft5 [1] [(2, 0, 1); (6, 0, 3)]) = true.
 Proof. vm_compute. auto. Qed.
+
+(* exactly one column per (listed condition x basis function) whatever the events and their amplitudes are -
+   also for a condition whose amplitudes are all 0 (its columns are then zero, not absent) *)
+Theorem convolve_regressors_column_count : forall ft os mo hs fir cids par,
+  length (convolve_regressors ft os mo hs fir cids par) = (length cids * length hs)%nat.
+Proof. exact convolve_regressors_length. Qed.
+Print Assumptions convolve_regressors_column_count.
